@@ -336,4 +336,220 @@ theorem outputsAt_exact {data : Bytes} {q l ai arg hl : Nat} {cs : List (Nat × 
   rw [arrayHeaderLen_actual hc' ⟨ai, arg, hrh'⟩ (by simp only [List.length_drop]; omega)]
   exact walk_children (data.drop q) (base + q) cs hl hcontig hin
 
+
+/-- the entries `extractMetadataOffsets` records over the child spans `kv` of the metadata map:
+    one per pair whose key is a uint32 transaction index, in wire order; it gives up at a key
+    that is not an unsigned integer. -/
+def metaEntries (data : Bytes) (base : Nat) : List (Nat × Nat) → List (Nat × Nat × Nat)
+  | ks :: vs :: rest =>
+    match readUint (data.drop ks.1) with
+    | none => []
+    | some (key, _) =>
+      if key > 4294967295 then metaEntries data base rest
+      else (key, base + vs.1, vs.2) :: metaEntries data base rest
+  | _ => []
+
+theorem metadataLoop_walk (data : Bytes) (base count : Nat) (indef : Bool) :
+    ∀ (n : Nat) (kv : List (Nat × Nat)) (fuel p i : Nat), kv.length = 2 * n →
+      Contig p kv → (∀ s ∈ kv, wfItem (data.drop s.1) = .ok s.2) →
+      n < fuel →
+      (indef = false → i + n = count) →
+      (indef = true → ∃ tl, data.drop (p + sumLens kv) = (0xff : UInt8) :: tl) →
+      metadataLoop data base count indef fuel p i = metaEntries data base kv := by
+  intro n
+  induction n with
+  | zero =>
+    intro kv fuel p i hlen _ _ hf hdef hind
+    have hkv : kv = [] := List.eq_nil_of_length_eq_zero (by omega)
+    subst hkv
+    cases fuel with
+    | zero => omega
+    | succ fuel =>
+      simp only [metadataLoop, metaEntries]
+      cases indef with
+      | true =>
+        obtain ⟨tl, ht⟩ := hind rfl
+        simp only [sumLens, List.map_nil, List.sum_nil, Nat.add_zero] at ht
+        simp [ht]
+      | false =>
+        have := hdef rfl
+        simp only [Nat.add_zero] at this
+        simp [this]
+  | succ n ih =>
+    intro kv fuel p i hlen hc hwf hf hdef hind
+    match kv, hlen with
+    | ks :: vs :: rest, hlen =>
+      obtain ⟨kso, ksl⟩ := ks
+      obtain ⟨vso, vsl⟩ := vs
+      simp only [Contig] at hc
+      obtain ⟨rfl, rfl, hc'⟩ := hc
+      have hk := hwf (kso, ksl) (by simp)
+      have hv := hwf (kso + ksl, vsl) (by simp)
+      cases fuel with
+      | zero => omega
+      | succ fuel =>
+        have hgo : metadataLoop data base count indef (fuel + 1) kso i =
+            (match readUint (data.drop kso) with
+             | none => []
+             | some (key, kl) =>
+               match skipItem (data.drop (kso + kl)) with
+               | none => []
+               | some vl =>
+                 if key > 4294967295 then metadataLoop data base count indef fuel (kso + kl + vl) (i + 1)
+                 else (key, base + kso + kl, vl) ::
+                   metadataLoop data base count indef fuel (kso + kl + vl) (i + 1)) := by
+          simp only [metadataLoop]
+          cases indef with
+          | true =>
+            have := child_not_break hk
+            simp only [if_true, this, if_false]
+            rfl
+          | false =>
+            have hlt : i < count := by
+              have := hdef rfl
+              omega
+            simp only [Bool.false_eq_true, if_false, hlt, if_true]
+            rfl
+        rw [hgo]
+        simp only [metaEntries]
+        cases hru : readUint (data.drop kso) with
+        | none => rfl
+        | some kk =>
+          obtain ⟨key, kl⟩ := kk
+          have hkl := readUint_len hru hk
+          subst hkl
+          simp only [skipItem_of_wf hv]
+          have hrec := ih rest fuel (kso + kl + vsl) (i + 1)
+              (by simp only [List.length_cons] at hlen; omega) hc'
+              (fun s hs => hwf s (by simp [hs])) (by omega)
+              (fun h => by have := hdef h; omega)
+              (fun h => by
+                obtain ⟨tl, ht⟩ := hind h
+                refine ⟨tl, ?_⟩
+                have : kso + sumLens ((kso, kl) :: (kso + kl, vsl) :: rest) =
+                    kso + kl + vsl + sumLens rest := by simp [sumLens]; omega
+                rw [← this]; exact ht)
+          rw [hrec]
+          by_cases hbig : key > 4294967295
+          · simp [hbig]
+          · simp only [hbig, if_false, Nat.add_assoc]
+    | [], hlen => simp at hlen
+    | [_], hlen => simp at hlen; omega
+
+/-- **extractMetadataOffsets = the pairs of the metadata map.** -/
+theorem metadataOffsets_eq {data : Bytes} {h : Nat} {kv : List (Nat × Nat)} {ind : Bool} {ai arg : Nat}
+    (base : Nat) (hc : childSpans data = some (h, kv, ind)) (hrh : readHead data = .mk 5 ai arg h)
+    (hlen : data.length ≤ 2147483647) :
+    metadataOffsets data base = metaEntries data base kv := by
+  obtain ⟨major, ai', arg', hrh', _, hind, hdef, hcontig, hin, hwf, hcnt⟩ := childSpans_props hc
+  rw [hrh] at hrh'
+  simp only [Head.mk.injEq] at hrh'
+  obtain ⟨rfl, rfl, rfl, _⟩ := hrh'
+  have hb := readHead_bounds hrh
+  have hev := childSpans_map_even hc hrh
+  unfold metadataOffsets
+  have hne : ¬ data.length = 0 := by omega
+  simp only [hne, if_false]
+  have hai : ai < 28 ∨ ai = 31 := by
+    cases ind with
+    | true => exact Or.inr (hind.mp rfl)
+    | false => exact Or.inl (hdef rfl).1
+  have harg : arg ≤ 2147483647 := by
+    cases ind with
+    | true =>
+      have : ai = 31 := hind.mp rfl
+      subst this
+      cases data with
+      | nil => simp [readHead] at hrh
+      | cons x tl =>
+        simp only [readHead] at hrh
+        split at hrh
+        · cases hrh
+        · simp only [Head.mk.injEq] at hrh
+          obtain ⟨_, h2, h3, _⟩ := hrh
+          rw [h2] at h3
+          simp [argLen, beNat] at h3
+          omega
+    | false =>
+      have := (hdef rfl).2
+      simp at this
+      omega
+  have hinfo := containerInfo_eq (major := 5) hrh hai harg
+  unfold mapInfo
+  rw [hinfo]
+  cases ind with
+  | true =>
+    have h31 : ai = 31 := hind.mp rfl
+    have h1 : h = 1 := by
+      subst h31
+      cases data with
+      | nil => simp [readHead] at hrh
+      | cons x tl =>
+        simp only [readHead] at hrh
+        split at hrh
+        · cases hrh
+        · simp only [Head.mk.injEq] at hrh
+          obtain ⟨_, h2, _, h4⟩ := hrh
+          rw [h2] at h4
+          simp [argLen] at h4
+          omega
+    simp only [h31, if_true]
+    simp only [Int.reduceLT, if_false, Int.toNat_zero]
+    rw [metadataLoop_walk data base 0 true (kv.length / 2) kv (data.length + 1) 1 0
+      (by omega) (by rw [← h1]; exact hcontig) hwf (by omega) (by simp)
+      (fun _ => by rw [← h1]; exact childSpans_indef_end hc)]
+  | false =>
+    have h31 : ¬ ai = 31 := by have := (hdef rfl).1; omega
+    have hcn := (hdef rfl).2
+    simp at hcn
+    simp only [h31, if_false]
+    have hneg : ¬ ((arg : Int) < 0) := by omega
+    simp only [hneg, if_false, Int.toNat_natCast]
+    rw [metadataLoop_walk data base arg false arg kv (data.length + 1) h 0
+      hcn hcontig hwf (by omega) (by simp) (by simp)]
+
+/-- value span (shifted by `base`) of the LAST pair whose key is the unsigned integer `k` -/
+def lastKey (data : Bytes) (base k : Nat) : List (Nat × Nat) → Option (Nat × Nat)
+  | ks :: vs :: rest =>
+    match lastKey data base k rest with
+    | some r => some r
+    | none =>
+      match readUint (data.drop ks.1) with
+      | some (key, _) => if key = k then some (base + vs.1, vs.2) else none
+      | none => none
+  | _ => none
+
+/-- The transaction's metadata range (Go map semantics: a later entry replaces an earlier
+    one) is the value under the last key equal to the transaction index — provided all
+    keys of the metadata map are unsigned integers. -/
+theorem lookupLast_metaEntries (data : Bytes) (base k : Nat) (hk : k ≤ 4294967295) :
+    ∀ (n : Nat) (kv : List (Nat × Nat)), kv.length = 2 * n →
+      (∀ j, 2 * j < kv.length → ∃ key kl, readUint (data.drop (kv.getD (2 * j) (0, 0)).1) = some (key, kl)) →
+      lookupLast k (metaEntries data base kv) = lastKey data base k kv := by
+  intro n
+  induction n with
+  | zero =>
+    intro kv hlen _
+    have : kv = [] := List.eq_nil_of_length_eq_zero (by omega)
+    subst this; rfl
+  | succ n ih =>
+    intro kv hlen hkeys
+    match kv, hlen with
+    | ks :: vs :: rest, hlen =>
+      obtain ⟨key, kl, hru⟩ := hkeys 0 (by simp)
+      simp only [Nat.mul_zero, List.getD_cons_zero] at hru
+      have hrec := ih rest (by simp only [List.length_cons] at hlen; omega) (by
+        intro j hj
+        have := hkeys (j + 1) (by simp only [List.length_cons]; omega)
+        simpa [Nat.mul_add, List.getD_cons_succ] using this)
+      simp only [metaEntries, lastKey, hru]
+      by_cases hbig : key > 4294967295
+      · simp only [hbig, if_true, hrec]
+        have : ¬ key = k := by omega
+        cases lastKey data base k rest <;> simp [this]
+      · simp only [hbig, if_false, lookupLast, hrec]
+        cases lastKey data base k rest <;> simp
+    | [], hlen => simp at hlen
+    | [_], hlen => simp at hlen; omega
+
 end GV.Model.Offsets
